@@ -365,6 +365,10 @@ class Gen:
                 lab = f"ref{len(self.ref_labels) + 1}"
                 if r.random() < 0.4:
                     lab = f"ref label {len(self.ref_labels) + 1}"  # several words: the spaces inside the brackets are layout
+                    if self.typo and r.random() < 0.4:
+                        # dot runs that are already spaced the way the ellipsis rule spaces them: the converted text differs from
+                        # the label only in the character itself
+                        lab = r.choice(["and so on ... {}", "... and more {}", "wait ... what {}"]).format(len(self.ref_labels) + 1)
                 self.ref_labels.append(lab)
                 self.feats.add("lrd")
                 title = r.choice([None, None, '"Title here"', '"it\'s"', "'single q'", "(paren t)", "'say \"hi\" now'"])
